@@ -1,12 +1,33 @@
 /-
   C13 — whatever the parser accepts can be printed and read back unchanged.
 
-  Full statement (depends on the structural round-trip theorem, see C01/C02 and LexprModel/Proofs/):
-    theorem C13_reparse (R bytes v) (h : fromTrait R bytes = .ok v) :
-      fromTrait R (text (pof R) v) = .ok (fold (pof R) R (readBack v))
+  Proved (LexprModel/Proofs/Image.lean with ImageBase, ImageTok, ImageDepth, ImageLift, ImageAtoms,
+  ImageFloat, ImageStruct, ImageExamples; imported here; namespace Lexpr.Parse.Image), for EVERY parser
+  option set (no compatibility hypothesis: `pof R` is always read by `R`), every input length:
+   * `parseToken_img`, `C13_image_shape`, `C13_image` — the image of the parser: every arm of `parse_token`
+     is inverted (symbols and keywords carry exactly the token's bytes, characters are scalars, strings
+     valid UTF-8, integers in range, …), and every atom of every value `next_value` returns from a slice or
+     stream source is read back, from its text under `pof R`, as itself in every follow context;
+     `C13_keyword_enabled` — a keyword can only have been read through an enabled syntax;
+   * `C13_reparse_partial` — if `from_slice_custom(bytes, R) = Ok(v)` then
+     `from_slice_custom(to_string_custom(v, pof R), R) = Ok(v)`, consuming everything, under three
+     explicit decidable side conditions, each shown necessary by a kernel-checked witness that is also a
+     behaviour of the real code (recorded as known findings, DESIGN.md section 9):
+       - `carDotOk`: no symbol starting with `.|` or `."` as the car of a pair (`C13_witness_dot`:
+         `'.|a` accepted, `(quote .|a)` rejected; `C13_witness_dot_misread`: `'."x"` reads as
+         `(quote ."x")` whose text reads as `(quote . "x")`);
+       - `kwDotOk`: no keyword named `.` when `pof R` spells keywords `#:` or `:` (`C13_witness_kwdot`:
+         `.:` is accepted as the keyword `.`, `#:.` is rejected);
+       - with `nil` read as the empty list, nesting at most 127 counting `()` as a level
+         (`C13_witness_depth`: `nil` inside 127 lists is accepted, `()` inside 127 lists is not);
+     and the float side condition `FloatOK` (exactly readable floats: always in the build without
+     fast-float-parsing, inside the exactness window otherwise — as the property states);
+   * `C13_fixpoint` — under the same conditions printing the re-read value gives the same text again;
+   * `C13_reparse_next` — the same in the middle of an input.
   Proved here: the option-level facts that make the statement well-posed for every parser option set.
 -/
 import LexprModel.Props.C02
+import LexprModel.Proofs.ImageExamples
 namespace Lexpr
 namespace Spec
 
@@ -22,6 +43,18 @@ theorem C13_pof_syntax (r : Parse.Options) :
     ((pof r).vector = .brackets ↔ r.brackets = .vector) := by
   cases r with
   | mk a b c n t br s ch ra d => cases br <;> simp [pof]
+
+/-- **C13_parse_print_parse** (the property, with its three recorded exceptions as explicit decidable
+    hypotheses): whatever `from_slice_custom` accepts under `R` prints, under the corresponding printer
+    options, to a text that `R` reads as the same value — for every parser option set. -/
+theorem C13_parse_print_parse (cfg : Parse.Cfg) (ryu : Nat → List UInt8) (bytes : List UInt8) (v : Value)
+    (s1 : Parse.St) (h : Parse.fromTrait cfg (Parse.initSt .slice bytes) = .ok v s1)
+    (hside : Parse.Image.AllAtoms (Parse.Image.AtomSideW cfg ryu) v)
+    (hdot : Parse.Image.carDotOk (pof cfg.opts) v = true)
+    (hnest : cfg.opts.nil = .emptyList → Parse.ListRT.nestingP (pof cfg.opts) v ≤ 127) :
+    ∃ s', Parse.fromTrait cfg (Parse.initSt .slice (Print.text (pof cfg.opts) ryu v)) = .ok v s' ∧
+      s'.rd.rest = [] ∧ s'.depth = 128 :=
+  Parse.Image.C13_reparse_partial cfg ryu bytes v s1 h hside hdot hnest
 
 example : pof Parse.Options.elisp =
     { keyword := .colonPrefix, nil := .token, bool := .token, vector := .brackets, bytes := .r7rs,
